@@ -725,6 +725,10 @@ FORWARD_EXEMPT = {
         "second loop checks children not touched by the extra constraints"
     ),
     ("FullFrontend", "unsat_core", "self._solver_backend.unsat_core"): "backend API takes the solver only",
+    ("CompositeFrontend", "_ensure_sat", "self.satisfiable"): (
+        "pre-check of the stored constraints of all groups; the query that follows carries the extra constraints "
+        "(rule C12.ensure requires this call to be unconditional)"
+    ),
 }
 
 
